@@ -45,6 +45,11 @@ def jobs(tier, seed):
         Job("c14_lemma_half", "real Duration::mul_f32(0.5) <= d/2 + d*2^-21 + 1ns for whole-ms d <= bound; no panic", timeout=t, mem_gb=20, module="c14", params={"bound_s": bound}),
         Job("c14_lemma_size", "real Duration::mul_f32: d*f <= d for f in {0.033, 0.5, 0.75}, d*3.0 <= 4d, all d <= 2*bound+1s", timeout=t, mem_gb=20, module="c14", params={"bound_s": bound}),
         Job("c14_lemma_monotone", "real Duration::mul_f32: d*0.75 <= d*3.0, no panic for 0.033/0.75/3.0, all d <= 2*bound+1s (ns resolution)", timeout=t, mem_gb=20, module="c14", params={"bound_s": bound}),
+        Job("c14_clocks_real_small_nomtg", "end-to-end with the REAL mul_f32 on clocks <= 60 s (no contract stub): soft <= hard <= half(avail)", timeout=t, mem_gb=16, module="gen",
+            gen="#[kani::proof]\n#[kani::unwind(9)]\n#[kani::stub(std::time::Instant::now, c14::stub_now)]\npub fn c14_clocks_real_small_nomtg() { c14::clocks_real_small(60, false); }\n"
+                "#[kani::proof]\n#[kani::unwind(9)]\n#[kani::stub(std::time::Instant::now, c14::stub_now)]\n#[kani::stub(std::time::Duration::checked_div, c14::stub_checked_div)]\n"
+                "pub fn c14_clocks_real_small_mtg() { c14::clocks_real_small(60, true); }\n", params={"max_s": 60}),
+        Job("c14_clocks_real_small_mtg", "same with moves-to-go 1..64", timeout=t, mem_gb=16, module="gen", params={"max_s": 60}),
         Job("c14_clocks_no_mtg", "clocks without moves-to-go: soft <= hard <= half(avail), no panic", timeout=t, mem_gb=20, module="c14", params={"bound_s": bound}),
         Job("c14_clocks_mtg", "clocks with moves-to-go >= 1: soft <= hard <= half(avail), no panic", timeout=t, mem_gb=20, module="c14", params={"bound_s": bound}),
     ]
